@@ -116,6 +116,10 @@ def _parse_payload(
             raise ConversionError(
                 "Could not convert value to a raw payload", value=value
             ) from err
+    if isinstance(payload, DPTArray) and not all(
+        isinstance(item, int) and 0 <= item <= 255 for item in payload.value
+    ):
+        raise ConversionError("Payload items must be integers 0..255", value=value)
     if isinstance(payload, DPTArray) and len(payload.value) >= MAX_NPDU_LENGTH:
         raise ConversionError(
             "Payload too long for a single frame", length=len(payload.value)
